@@ -223,8 +223,20 @@ impl KnownWord {
     /// Performs exponentiation of two known words.
     #[must_use]
     pub fn exp(self, rhs: Self) -> Self {
-        // The operation takes place in native endianness, which in our case is LE
-        KnownWord::from_le(self.value.wrapping_pow(rhs.value.as_u32()))
+        // The exponent is a full 256-bit word, so we square-and-multiply over all of its
+        // bits rather than narrowing it first. The operation takes place in native
+        // endianness, which in our case is LE
+        let mut result = U256::ONE;
+        let mut base = self.value;
+        let mut exponent = rhs.value;
+        while exponent != U256::ZERO {
+            if exponent & U256::ONE == U256::ONE {
+                result = result.wrapping_mul(base);
+            }
+            base = base.wrapping_mul(base);
+            exponent >>= 1u32;
+        }
+        KnownWord::from_le(result)
     }
 
     /// Computes less-than of two known words.
@@ -286,6 +298,16 @@ impl KnownWord {
     /// Computes the signed right shift of `self` by `rhs`.
     #[must_use]
     pub fn sar(self, rhs: Self) -> Self {
+        // Shifting by the word size or more leaves only copies of the sign bit
+        if rhs.value_le() >= U256::from(256u16) {
+            let signed = self.value_le_signed();
+            return KnownWord::from_le_signed(if signed < I256::ZERO {
+                I256::MINUS_ONE
+            } else {
+                I256::ZERO
+            });
+        }
+
         // We need the value to be signed to make it an arithmetic shift
         let result = self.value_le_signed() >> rhs.value_le();
 
@@ -402,6 +424,10 @@ impl std::ops::Shl<KnownWord> for KnownWord {
 
     /// Computes the left shift of `self` by `rhs`.
     fn shl(self, rhs: KnownWord) -> Self::Output {
+        // Shifting by the word size or more shifts every bit out
+        if rhs.value_le() >= U256::from(256u16) {
+            return KnownWord::zero();
+        }
         KnownWord::from_le(self.value_le() << rhs.value_le())
     }
 }
@@ -411,6 +437,10 @@ impl std::ops::Shr<KnownWord> for KnownWord {
 
     /// Computes the unsigned right shift of `self` by `rhs`.
     fn shr(self, rhs: KnownWord) -> Self::Output {
+        // Shifting by the word size or more shifts every bit out
+        if rhs.value_le() >= U256::from(256u16) {
+            return KnownWord::zero();
+        }
         KnownWord::from_le(self.value_le() >> rhs.value_le())
     }
 }
